@@ -5,30 +5,47 @@ class P(vlib.Prop):
     watch = ("pkg/apk/apk/version.go", "pkg/apk/apk/apkindex.go", "pkg/apk/apk/installed.go", "pkg/apk/apk/package.go", "pkg/apk/apk/index.go", "pkg/apk/apk/install.go",
              "pkg/apk/expandapk/*.go", "pkg/passwd/*.go", "pkg/build/sbom.go", "pkg/build/lock.go", "pkg/build/layers.go", "pkg/lock/lock.go",
              "pkg/build/types/*.go", "pkg/baseimg/*.go", "pkg/tarfs/fs.go", "pkg/apk/fs/rwosfs.go")
-    rule = ("one stage. (a) Coq cases: hand-picked corners first (every fixed defect and finding replay: 'P\\n', one-byte lines, empty tar entry name, empty path, "
+    rule = ("three stages. readers: (a) Coq cases: hand-picked corners first (every fixed defect and finding replay: 'P\\n', one-byte lines, empty tar entry name, empty path, "
             "negative layer budget), then the four line-oriented readers on mutated well-formed documents (truncation, byte/bit edits, splices, line edits); the "
             "implementation's outcome class (returned / error / panic / timeout, under recover and a 3 s deadline) is compared with the model's class and judged by the validator. "
-            "(b) exploration in Go only, reported as IMPL-VIOLATION lines and counted in STAT: 14 readers (ParseVersion, ResolvePackageNameVersionPin, ParsePackageIndex, "
-            "IndexFromArchive, ParseInstalled, expandapk.Split, ExpandApk, ParsePackage, UserFile.Load, GroupFile.Load, readReleaseData, lock.FromFile, ImageConfiguration.Load, baseimg.New) "
-            "on the empty input, truncations at every offset (sampled above 600 bytes), and random 1-3 step mutations of well-formed documents, plus oversized lines/members; "
-            "crashes that recover cannot catch (stack overflow) are probed in child processes. distinct = distinct case terms.")
+            "(b) exploration in Go only, reported as IMPL-VIOLATION lines and counted in STAT: 14 readers on the empty input, truncations at every offset (sampled above 600 bytes), "
+            "random 1-3 step mutations of well-formed documents, every sequence of 0..4 gzip members, oversized lines/members; crashes that recover cannot catch are probed in child processes. "
+            "sites: the readers added to the model in session 3 run for real and compared with the model in Coq, result VALUES included where the function returns any: readReleaseData "
+            "(ID, NAME, VERSION_ID), the '@tag url' splitter through GetRepositoryIndexes on a local repository (name and source of the index that comes back; Unicode and invalid-UTF-8 white space), "
+            "unify's splitter through unify itself (the one prefix that locks, and the pin it re-attaches), checksumFromHeader (bytes), ExpandApk and Split on every sequence of up to four members "
+            "of four kinds (signature / other / empty / corrupt) with and without trailing garbage (Signed flag, number of parts); Go only: each line reader on a record whose long line is exactly "
+            "the scanner's token limit (must be an error) and one byte less (must be read), hostile signature entry names, unify without architectures. "
+            "decoders (Go only, exploration): 2215 structured hostile inputs (tar header fields, PAX records, gzip framing, YAML aliases/nesting/includes/numbers, JSON nesting/numbers/types, OCI layout "
+            "descriptors) through IndexFromArchive, Split, ExpandApk, ParsePackage, the install loop + installed database, lock.FromFile, ImageConfiguration.Load+Validate, baseimg.New, in child "
+            "processes under a 4 GiB address-space limit and a per-call deadline; a death of the child (stack overflow, out of memory) is attributed to the case that was running. distinct = distinct case terms.")
     stages = (
         dict(name="readers", cmd="c15", args=lambda t, s: []),
         dict(name="sites", cmd="c15", args=lambda t, s: ["-stage", "sites"]),
         dict(name="decoders", cmd="c15", args=lambda t, s: ["-stage", "decoders"]),
     )
     assumptions = (
-        "library decoders (gzip, tar, yaml, json, ini, base64, regexp, bufio, strconv) are not modelled: their behaviour on malformed input is explored by the harness, not proved",
-        "the regexp engine returns submatch vectors of 1 + NumSubexp entries; the group counts are computed from the regex literals goextract reads from version.go",
+        "library decoders (gzip, tar, yaml, json, ini, base64, hex, regexp, strconv) are not modelled: their behaviour on malformed input is explored by the harness (stage decoders), not proved; "
+        "bufio.Scanner's line splitting and token limit, strings.Fields / Cut / Trim / IndexAny / TrimSuffix / HasPrefix are modelled (Base/C16Lib, Model/Parsers.v) and the facts the callers rely on are lemmas about those models",
+        "the regexp engine returns submatch vectors of 1 + NumSubexp entries; the group counts are computed from the regex literals goextract reads from the source",
         "M: lines that do not directly follow their F: line are outside the model (stale pointer after slice growth); such mutated texts are run in Go only",
+        "ExpandApk / Split: a gzip member is abstracted to one of four kinds; what the gzip and tar readers do inside a member is the library's business (compared on 682 member sequences per run)",
+        "index / slice expressions and length guards of the transcribed functions are read from the source with local names erased and pinned by c15_sites_pinned: an edit that adds or changes one breaks the theorem",
     )
-    level_text = ("For the line-oriented readers (ParsePackageIndex, ParseInstalled + parseInstalledPerms, UserFile.Load, GroupFile.Load) and the indexing sites of ParseVersion, "
-                  "ResolvePackageNameVersionPin, cachedPackage, the theorems state for ALL inputs that the model, written with checked slicing, returns a result or an error (never Panic, never out of fuel); "
-                  "every loop is a structural recursion on the scanned lines. Four sites are refuted with witnesses replayed on the real code (empty tar entry name, negative layer budget, "
-                  "standardizePath(\"\"), self-child directory in sortTarHeaders) and proved safe outside the witness class. Decoding done by libraries is exploration, labelled as such.")
-    level_note = ("partial: proof for the modelled readers only; gzip/tar/yaml/json/ini decoding, Split, ExpandApk, IndexFromArchive, lock.FromFile, the YAML loader and baseimg.New are "
-                  "explored with malformed streams under recover + deadline (not a proof). trusted: Coq kernel, goextract, harness; modelled not verified: the Go text of the readers")
+    level_text = ("43 theorems, all closed. For ALL inputs the models, written with checked slicing / indexing, return a result or an error, never Panic and never out of fuel: the line-oriented readers "
+                  "(ParsePackageIndex, ParseInstalled + parseInstalledPerms, UserFile.Load, GroupFile.Load, readReleaseData), ParseVersion / ResolvePackageNameVersionPin (group counts of the source's "
+                  "regexes), cachedPackage, checksumFromHeader (three copies), the '@tag url' splitter of GetRepositoryIndexes (with a UTF-8 aware model of strings.Fields whose 'no empty field' contract is "
+                  "a lemma), unify's constraint splitter (IndexAny result in range), ExpandApk's section indices for EVERY number of gzip members (table read from the source's switch, plus the member loop: "
+                  "at most 3 members are collected), Split/ParsePackageInfo, the signature-name test and b[readBytes:] of parseRepositoryIndex, ParseArchitectures, the install loops' name test, "
+                  "standardizePath, the layer budget. Token limit: for each of the five line readers a line that does not fit the limit the source sets makes the reader return an error "
+                  "(c15_long_line_is_error_*), never a shortened result. No loop without consuming input: every reader model is a structural recursion over the scanned lines / members; the one fuel "
+                  "(sortTarHeaders) is proved sufficient on EVERY header list without an entry whose cleaned name is '.', the excluded shape being finding C15-F4 (refuted, witness replayed). "
+                  "Refuted with witnesses replayed on the real code: the self-child directory (C15-F4), the include cycle of ImageConfiguration.Load (C15-F6), unify without architectures (API only). "
+                  "Both repairs (fixes/C15-F4.patch, fixes/C15-F6.patch) are modelled, proved to end on every input and to agree with today's code wherever today's code returns.")
+    level_note = ("partial: proof for the modelled readers only; gzip/tar/yaml/json/ini decoding inside Split, ExpandApk, IndexFromArchive, ParsePackage, lock.FromFile, the YAML loader and baseimg.New is "
+                  "explored with malformed streams and 2215 structured hostile inputs under recover + deadline + memory ceiling (not a proof). trusted: Coq kernel, goextract, harness; "
+                  "modelled not verified: the Go text of the readers")
     design_ref = "DESIGN.md 7 C15"
-    modelled_not_verified = ("readers' control flow modelled by hand in Model/Formats.v and Model/Parsers.v; line guards, case letters, regex literals and scanner limits are regenerated from the source")
+    modelled_not_verified = ("readers' control flow modelled by hand in Model/Formats.v and Model/Parsers.v; line guards, case letters, regex literals, scanner limits and Err() checks, separators, "
+                             "the ExpandApk switch table, stream limits, and the index / slice sites and length guards of every transcribed function are regenerated from the source (Generated/FieldLetters.v, C15Sites.v)")
 
 PROP = P()
